@@ -1056,10 +1056,7 @@ class Executor {
         cand("C18", "alloc_bound", sig, det, ex);
       }
     }
-    if (st && st->want_run_hashes) {
-      st->run_hashes.push_back(idx);
-      st->run_hashes.push_back(run_hash.Digest());
-    }
+    if (st && st->want_run_hashes) PoolLogRunHash(idx, run_hash.Digest());
     if (st) {
       for (const FaultOp &op : p.faults) {
         if (applied) ++st->kinds[FaultKindName(op.kind)].applied;
@@ -1110,94 +1107,6 @@ void FlushHashes(const std::string &dir, int worker, std::vector<uint64_t> *h) {
     fclose(f);
   }
   h->clear();
-}
-
-std::string ClassifyDeath(const PoolDeath &d, std::string *sig,
-                          std::string *excerpt) {
-  std::string log;
-  ReadFile(d.log_path, &log);
-  if (log.size() > 200000) log = log.substr(log.size() - 200000);
-  *excerpt = log.substr(0, 6000);
-  auto first_draco_frame = [&](size_t from) -> std::string {
-    // Frames look like "    #3 0x... in draco::Foo::Bar(...) /path:line:col".
-    size_t p = from;
-    while ((p = log.find(" in ", p)) != std::string::npos) {
-      size_t e = log.find('\n', p);
-      std::string fr = log.substr(p + 4, e == std::string::npos ? std::string::npos
-                                                                 : e - p - 4);
-      if (fr.find("draco::") != std::string::npos) {
-        size_t par = fr.find('(');
-        size_t sp = fr.find(" /");
-        size_t cut = std::min(par, sp);
-        return fr.substr(0, cut);
-      }
-      p += 4;
-    }
-    return "";
-  };
-  std::string cls;
-  size_t p;
-  if ((p = log.find("ERROR: AddressSanitizer: ")) != std::string::npos) {
-    size_t s = p + strlen("ERROR: AddressSanitizer: ");
-    size_t e = log.find_first_of(" \n", s);
-    cls = "asan:" + log.substr(s, e - s);
-    *sig = cls + "@" + first_draco_frame(p);
-  } else if ((p = log.find("runtime error: ")) != std::string::npos) {
-    size_t s = p + strlen("runtime error: ");
-    size_t e = log.find('\n', s);
-    std::string msg = log.substr(s, e - s);
-    // Strip concrete numbers so that the signature is stable.
-    std::string norm;
-    for (char c : msg) norm += isdigit(static_cast<unsigned char>(c)) ? '#' : c;
-    // Source position precedes "runtime error".
-    size_t ls = log.rfind('\n', p);
-    std::string pos = log.substr(ls == std::string::npos ? 0 : ls + 1,
-                                 p - (ls == std::string::npos ? 0 : ls + 1));
-    size_t sl = pos.rfind('/');
-    if (sl != std::string::npos) pos = pos.substr(sl + 1);
-    std::string fr = first_draco_frame(p);
-    cls = "ubsan";
-    *sig = "ubsan:" + norm.substr(0, 80) + "@" + (fr.empty() ? pos : fr);
-  } else if ((p = log.find("Assertion `")) != std::string::npos) {
-    size_t ls = log.rfind('\n', p);
-    size_t e = log.find('\n', p);
-    std::string line = log.substr(ls == std::string::npos ? 0 : ls + 1,
-                                  e - (ls == std::string::npos ? 0 : ls + 1));
-    // "<prog>: <file>:<line>: <function>: Assertion `expr' failed."
-    size_t a = line.find(": ");
-    std::string rest = a == std::string::npos ? line : line.substr(a + 2);
-    // Drop the line number (unstable across edits).
-    std::string norm;
-    size_t c1 = rest.find(':');
-    size_t c2 = rest.find(':', c1 + 1);
-    if (c1 != std::string::npos && c2 != std::string::npos) {
-      std::string file = rest.substr(0, c1);
-      size_t sl = file.rfind('/');
-      if (sl != std::string::npos) file = file.substr(sl + 1);
-      norm = file + rest.substr(c2);
-    } else {
-      norm = rest;
-    }
-    cls = "assert";
-    *sig = "assert:" + norm;
-  } else if (log.find("TOLERATED_TERMINATE") != std::string::npos) {
-    cls = "tolerated_terminate";
-    *sig = cls;
-  } else if (log.find("terminate called") != std::string::npos ||
-             log.find("SIM_TERMINATE") != std::string::npos) {
-    cls = "terminate";
-    *sig = "terminate@" + first_draco_frame(0);
-  } else if (d.wallclock) {
-    cls = "wallclock";
-    *sig = cls;
-  } else if (d.signal) {
-    cls = "signal:" + std::to_string(d.signal);
-    *sig = cls;
-  } else {
-    cls = "exit";
-    *sig = "exit:" + std::to_string(d.exit_code);
-  }
-  return cls;
 }
 
 }  // namespace
@@ -1262,15 +1171,6 @@ int ChanBatch(const ChanOptions &opt) {
   };
   cb.finish = [&](int w, std::string *out) {
     FlushHashes(opt.log_dir, w, &wst.eff_hashes);
-    if (opt.hashlog && !wst.run_hashes.empty()) {
-      char hn[512];
-      snprintf(hn, sizeof(hn), "%s/runhash.%d.bin", opt.log_dir.c_str(), w);
-      FILE *hf = fopen(hn, "ab");
-      if (hf) {
-        fwrite(wst.run_hashes.data(), 8, wst.run_hashes.size(), hf);
-        fclose(hf);
-      }
-    }
     *out += StatsToJson(wst).Dump();
     *out += '\n';
     // Edge bitmap.
@@ -1376,6 +1276,7 @@ int ChanBatch(const ChanOptions &opt) {
   po.end = total;
   po.budget_s = opt.budget_s;
   po.log_dir = opt.log_dir;
+  po.hashlog = opt.hashlog;
   PoolResult pr = RunPool(po, cb);
 
   // Merge the hashes of effective faulted streams.
